@@ -381,6 +381,28 @@ def check_import(spec, ctx):
         check_ann(ann, e, box)
     if ca.clip.recording != rec or ca.clip.start_time != 0 or ca.clip.end_time != rec.duration:
         ctx.fail("clip of the imported annotation does not span the recording", spec, None, None, kind="clip")
+    # the recording left out: it is then read from the annotation's notated_path, with recording_kwargs handed to Recording.from_file
+    # (the documented way to say that the file is time-expanded) - the same import as with that recording passed explicitly
+    if float(sr / te).is_integer() and 1000 <= sr / te <= 400000:
+        import os
+
+        import soundfile as sf
+
+        from vf.checks.c15 import scratch
+
+        wav = os.path.join(scratch(), f"c10_{int(sr / te)}.wav")
+        if not os.path.exists(wav):
+            sf.write(wav, np.zeros(int(sr / te) // 4, dtype=np.int16), int(sr / te), subtype="PCM_16")
+        annot_f = crowsetta.Annotation(annot_path="x.csv", notated_path=wav, **({"bboxes": getattr(annot, "bboxes", [])} if box else {"seq": annot.seq}))
+        rec_f = data.Recording.from_file(wav, time_expansion=te, compute_hash=False)
+        want_f = sec.annotation_to_clip_annotation(annot_f, recording=rec_f, **kw)
+        got_f = ctx.call(spec, "annotation_to_clip_annotation(recording=None, recording_kwargs={time_expansion})", sec.annotation_to_clip_annotation, annot_f, recording=None, recording_kwargs={"time_expansion": te, "compute_hash": False}, **kw)
+        geo = lambda c: [(a.sound_event.geometry.type, a.sound_event.geometry.coordinates, sorted((t.term.name, t.value) for t in a.tags)) for a in c.sound_events]  # noqa: E731
+        if geo(got_f) != geo(want_f) or (got_f.clip.recording.samplerate, got_f.clip.recording.time_expansion, got_f.clip.end_time) != (rec_f.samplerate, rec_f.time_expansion, want_f.clip.end_time):
+            ctx.fail(f"import with the recording read from the file (time_expansion={te} in recording_kwargs) differs from the import with Recording.from_file(path, time_expansion={te}) passed explicitly", spec, geo(got_f)[:2], geo(want_f)[:2], kind="recording_from_file")
+        if rec_f.samplerate == sr and geo(want_f) != geo(ca):
+            ctx.fail("import against Recording.from_file(...) differs from the import against an equal hand-built recording", spec, geo(want_f)[:2], geo(ca)[:2], kind="recording_from_file")
+        ctx.label("recording_from_notated_path")
 
 
 # ---------------------------------------------------------------------------------------------
